@@ -10,6 +10,7 @@ from mirsmt.symexec import (Executor, State, VInt, VBool, VStruct, VEnum, VRef, 
 from mirsmt.env import decide, cross_check, model_int, model_bool, Inconclusive, now
 
 ALPHABET = "ab*?./"
+TEXT_ALPHABET = ALPHABET + "\u00e9"       # one non-ASCII character (2 bytes in UTF-8): `?` must match it as ONE character
 
 
 class Ctx:
@@ -107,8 +108,9 @@ def glob_obligation(ctx, prover, pid, P, T, direction="iff"):
     """direction: 'iff' (C19: result == definition) or 'protect' (C15: definition-match => recognised)"""
     R = prover.R
     ex = ctx.ex(K=(T + 1) * (P + 2) + P + 3)
+    stdmodels.install_strings(ex, max(P, T))
     pv, pl, pc = sym_str(ex, "p", P)
-    tv, tl, tc = sym_str(ex, "t", T)
+    tv, tl, tc = sym_str(ex, "t", T, TEXT_ALPHABET)
     st = State()
     fn = ctx.fn(ex, "glob_match")
     r = ex.exec_fn(fn, [VRef("val", val=pv), VRef("val", val=tv)], st)
@@ -144,7 +146,7 @@ def glob_obligation(ctx, prover, pid, P, T, direction="iff"):
 
     return prover.prove(ex, goals, "%s/glob_match" % pid,
                         "all patterns of length <= %d and texts of length <= %d over the alphabet %r; loop unrolled %d times with unwinding assertion"
-                        % (P, T, ALPHABET, ex.K), ["glob_match"], witness)
+                        % (P, T, TEXT_ALPHABET, ex.K), ["glob_match"], witness)
 
 
 def validate_glob(ctx, R, seed, count):
